@@ -65,7 +65,8 @@ def main():
     meta["confirmation"] = ran
     meta["checks_run_with_change_applied"] = results
     meta["caught_by"] = [c for c, r in results.items() if r["exit"] == 1]
-    json.dump(meta, open(os.path.join(dst, "meta.json"), "w"), indent=1)
+    if not os.environ.get("MUTANT_NO_WRITE"):      # e.g. a run under another VERIF_SEED: report only
+        json.dump(meta, open(os.path.join(dst, "meta.json"), "w"), indent=1)
     print(prop, os.path.basename(mdir), "confirmed" if ran.get("confirmed") else "NOT CONFIRMED", "caught_by", meta["caught_by"],
           {c: (r["exit"], r["wall_s"]) for c, r in results.items()})
     for c, r in results.items():
